@@ -1,10 +1,78 @@
 import SkaModel.Core.Proto
+import SkaModel.Core.Regressor
 
-/-! Driver commands for the `Regressor` model family. One self-contained case per line. -/
+/-! Driver commands for the `Regressor` model family (C15). One self-contained case per line. -/
 
 namespace Ska.Drv.Regressor
-open Ska Ska.Proto
+open Ska Ska.Classifier Ska.Regressor Ska.Proto
 
-def handlers : List (String × P String) := []
+def showMat (M : List (List Float)) : String := " ; ".intercalate (M.map showFloats)
+
+/-- `nicpost <hasW> <m> krow(m) y(m) w(m) <kappa0> <nu0> <mu0> <sigmaSq0>` : one query point.
+Output `N mu var | kappa nu mu sigmaSq | scale` with `scale = sqrt((1+κ)/κ·σ²)`. (`m = 0`: neutral update.) -/
+def cmdNicPost : P String := do
+  let hasW ← bool
+  let m ← nat
+  let krow ← many float m
+  let y ← many float m
+  let w ← many float m
+  let k0 ← float; let n0 ← float; let m0 ← float; let s0 ← float
+  let wo := if hasW then some w else none
+  let u := updateParams wo krow y
+  let post := combineParams ⟨k0, n0, m0, s0⟩ u
+  let s2 := scaleSq post
+  pure (showFloats [u.kappa, u.mu, u.sigmaSq] ++ " | " ++ showFloats [post.kappa, post.nu, post.mu, post.sigmaSq]
+    ++ " | " ++ showFloats [Float.sqrt s2])
+
+/-- `labelstats <n> ys` : `_label_mean _label_std`. -/
+def cmdLabelStats : P String := do
+  let ys ← listOf float
+  pure (showFloats [labelMean ys, labelStd Float.sqrt ys])
+
+/-- `wrappred <fitted> <returnStd> <nq> em(nq) <hasEs> es(nq) <nl> ys(nl)` : `SklearnRegressor.predict`. -/
+def cmdWrapPred : P String := do
+  let fitted ← bool; let rs ← bool
+  let nq ← nat
+  let em ← many float nq
+  let hasEs ← bool
+  let es ← many float nq
+  let ys ← listOf float
+  let (m, s) := wrapperPredict Float.sqrt fitted em (if hasEs then some es else none) ys nq rs
+  pure (showFloats m ++ " | " ++ (match s with | none => "none" | some l => showFloats l))
+
+/-- `normfallback <nq> <n> ys` : `SklearnNormalRegressor.predict(return_std=True)` with an unfitted estimator. -/
+def cmdNormFallback : P String := do
+  let nq ← nat
+  let ys ← listOf float
+  let (m, s) := normalFallbackPredict Float.sqrt ys nq
+  pure (showOptFloats m ++ " | " ++ showOptFloats s)
+
+/-- `predictout <rs> <re> <nq> mean(nq) std(nq) ent(nq)` : shape of `ProbabilisticRegressor.predict`. -/
+def cmdPredictOut : P String := do
+  let rs ← bool; let re ← bool
+  let nq ← nat
+  let mean ← many optFloat nq
+  let std ← many optFloat nq
+  let ent ← many optFloat nq
+  match predictOut ⟨mean, std, ent⟩ rs re with
+  | .single m => pure ("single " ++ showOptFloats m)
+  | .tuple ps => pure ("tuple " ++ " ; ".intercalate (ps.map showOptFloats))
+
+/-- `sampley <s> <q> draws(s*q)` : `rvs(size=(s, q)).T`. -/
+def cmdSampleY : P String := do
+  let s ← nat; let q ← nat
+  let flat ← many float (s * q)
+  pure (showMat (sampleY q (chunk q s flat)))
+
+/-- `fallbacksample <q> <s> z(q*s) <std> <mean>`. -/
+def cmdFallbackSample : P String := do
+  let q ← nat; let s ← nat
+  let flat ← many float (q * s)
+  let std ← float; let mean ← float
+  pure (showMat (fallbackSample (chunk s q flat) std mean))
+
+def handlers : List (String × P String) :=
+  [ ("nicpost", cmdNicPost), ("labelstats", cmdLabelStats), ("wrappred", cmdWrapPred),
+    ("predictout", cmdPredictOut), ("normfallback", cmdNormFallback), ("sampley", cmdSampleY), ("fallbacksample", cmdFallbackSample) ]
 
 end Ska.Drv.Regressor
